@@ -1136,6 +1136,15 @@ func (x *execution) compare() {
 			if oc.dump == exp.dump || maskAddrs(oc.dump) == maskAddrs(exp.dump) {
 				continue
 			}
+			if oc.panicked && in.panicMsg == "<yield budget exceeded>" && !exp.panicked && exp.yields*4 >= simCap {
+				// The operation is within a factor of four of the budget even sequentially; in
+				// the simulation it came first in a cold process and paid for whatever the
+				// library sets up once (a table built under sync.Once costs a million yields),
+				// which pushed it over. The budget exists to survive endless loops, it is not
+				// an oracle for operations this close to it: not compared.
+				rec.TooSlow++
+				continue
+			}
 			class := "diverge"
 			if oc.panicked != exp.panicked {
 				class = "panic-mismatch"
